@@ -38,6 +38,8 @@ def evaluate(sid: str, tier: str, suite: bool):
     notes = open(os.path.join(d, "notes.md")).read() if os.path.exists(os.path.join(d, "notes.md")) else ""
     meta_p = os.path.join(d, "meta.json")
     meta = json.load(open(meta_p)) if os.path.exists(meta_p) else {}
+    prev_suite = next((r for r in meta.get("ran", []) if r.startswith("pinned suite") and "None" not in r), None)
+    suite_line = "pinned suite on the scratch copy: " + str(res.get("suite")) if res.get("suite") else (prev_suite or "pinned suite: not re-run")
     meta.update({
         "id": sid,
         "property": sid.split("-")[0],
@@ -45,7 +47,7 @@ def evaluate(sid: str, tier: str, suite: bool):
         "needs_to_manifest": meta.get("needs_to_manifest") or needs(notes),
         "ran": [
             "patch -p1 < patch.diff on a scratch copy of /repo (tools/seedtest.py)",
-            "pinned suite on the scratch copy: " + str(res.get("suite")),
+            suite_line,
             f"demo.py with the change: exit {res.get('demo_with_change')}; without: exit {res.get('demo_without_change')}",
             f"all 20 checks ({tier}) with ODATA_REPO=<scratch copy>",
         ],
